@@ -1,0 +1,45 @@
+//go:build verif
+
+package fp
+
+import (
+	"crypto/sha256"
+	"encoding/binary"
+	"sort"
+)
+
+// VerifSqrtTablesDigest returns a SHA-256 over the three square-root tables
+// (verification only).
+func VerifSqrtTablesDigest() [32]byte {
+	h := sha256.New()
+	put := func(e *Element) {
+		var b [8]byte
+		for _, w := range e {
+			binary.LittleEndian.PutUint64(b[:], w)
+			h.Write(b[:])
+		}
+	}
+	for i := range sqrtPrecomp_PrimitiveDyadicRoots {
+		put(&sqrtPrecomp_PrimitiveDyadicRoots[i])
+	}
+	put(&sqrtPrecomp_ReconstructionDyadicRoot)
+	for i := range sqrtPrecomp_PrecomputedBlocks {
+		for j := range sqrtPrecomp_PrecomputedBlocks[i] {
+			put(&sqrtPrecomp_PrecomputedBlocks[i][j])
+		}
+	}
+	keys := make([]int, 0, len(sqrtPrecomp_dlogLUT))
+	for k := range sqrtPrecomp_dlogLUT {
+		keys = append(keys, int(k))
+	}
+	sort.Ints(keys)
+	for _, k := range keys {
+		var b [16]byte
+		binary.LittleEndian.PutUint64(b[:8], uint64(k))
+		binary.LittleEndian.PutUint64(b[8:], uint64(sqrtPrecomp_dlogLUT[uint16(k)]))
+		h.Write(b[:])
+	}
+	var out [32]byte
+	copy(out[:], h.Sum(nil))
+	return out
+}
